@@ -10,73 +10,80 @@ Open Scope Z_scope.
 (* Integer level (unbounded)                                           *)
 (* ------------------------------------------------------------------ *)
 
-Lemma memmap_ok_spec nbytes ns nc :
-  memmap_ok nbytes ns nc = true <-> 0 < nbytes /\ 0 <= ns * nc * 2 <= nbytes.
+Lemma memmap_ok_spec isz nbytes ns nc :
+  memmap_ok isz nbytes ns nc = true <-> 0 < nbytes /\ 0 <= ns * nc * isz <= nbytes.
 Proof.
   unfold memmap_ok. rewrite !andb_true_iff, Z.ltb_lt, !Z.leb_le. lia.
 Qed.
 
 (* whatever the float arithmetic does: an open that succeeds never maps more
    than the file holds, hence exposes at most the complete frames *)
-Lemma opened_within_file online nbytes nc fts fs ns nc' fts' rw :
-  1 <= nc ->
-  open_bin online nbytes nc fts fs = Opened ns nc' fts' rw ->
-  nc' = nc /\ 0 <= ns /\ ns * nc * 2 <= nbytes /\ ns <= nbytes / (2 * nc).
+Lemma opened_within_file online isz nbytes nc fts fs ns nc' fts' rw :
+  1 <= nc -> 1 <= isz ->
+  open_bin online isz nbytes nc fts fs = Opened ns nc' fts' rw ->
+  nc' = nc /\ 0 <= ns /\ ns * nc * isz <= nbytes /\ ns <= nbytes / (isz * nc).
 Proof.
-  intros Hnc. unfold open_bin.
-  destruct (reader_ns online nbytes nc fts fs) as [ns0| |]; try discriminate.
-  destruct (reader_ns online nbytes nc _ fs) as [ns1| |]; try discriminate.
-  destruct (memmap_ok nbytes ns1 nc) eqn:Hm; try discriminate.
+  intros Hnc Hisz. unfold open_bin.
+  destruct (reader_ns online isz nbytes nc fts fs) as [ns0| |]; try discriminate.
+  destruct (reader_ns online isz nbytes nc _ fs) as [ns1| |]; try discriminate.
+  destruct (memmap_ok isz nbytes ns1 nc) eqn:Hm; try discriminate.
   intros H. injection H as <- <- _ _.
   apply memmap_ok_spec in Hm. destruct Hm as [Hpos [Hlo Hhi]].
+  assert (0 < isz * nc) by nia.
   split; [reflexivity|]. split; [nia|]. split; [lia|].
-  apply Z.div_le_lower_bound; lia.
+  apply Z.div_le_lower_bound; nia.
 Qed.
 
 (* every element of the exposed (ns, nc) array lies inside the file *)
-Lemma reads_within_file nbytes ns nc i j :
-  1 <= nc -> ns * nc * 2 <= nbytes -> 0 <= i < ns -> 0 <= j < nc ->
-  0 <= byte_offset nc i j /\ byte_offset nc i j + 2 <= ns * nc * 2 /\ byte_offset nc i j + 2 <= nbytes.
+Lemma reads_within_file isz nbytes ns nc i j :
+  1 <= nc -> 1 <= isz -> ns * nc * isz <= nbytes -> 0 <= i < ns -> 0 <= j < nc ->
+  0 <= byte_offset isz nc i j /\ byte_offset isz nc i j + isz <= ns * nc * isz /\
+  byte_offset isz nc i j + isz <= nbytes.
 Proof.
-  unfold byte_offset. intros Hnc Hle Hi Hj.
+  unfold byte_offset. intros Hnc Hisz Hle Hi Hj.
   assert (i * nc <= (ns - 1) * nc) by (apply Z.mul_le_mono_nonneg_r; lia).
   assert (0 <= i * nc) by (apply Z.mul_nonneg_nonneg; lia).
-  lia.
+  assert (0 <= i * nc + j) by lia.
+  assert (i * nc + j + 1 <= ns * nc) by lia.
+  assert (isz * (i * nc + j + 1) <= isz * (ns * nc)) by (apply Z.mul_le_mono_nonneg_l; lia).
+  nia.
 Qed.
 
-(* distinct (i, j) read distinct, non-overlapping int16 cells: the array is the file prefix *)
-Lemma byte_offset_inj nc i j i' j' :
-  1 <= nc -> 0 <= j < nc -> 0 <= j' < nc ->
-  byte_offset nc i j = byte_offset nc i' j' -> i = i' /\ j = j'.
+(* distinct (i, j) read distinct, non-overlapping cells: the array is the file prefix *)
+Lemma byte_offset_inj isz nc i j i' j' :
+  1 <= nc -> 1 <= isz -> 0 <= j < nc -> 0 <= j' < nc ->
+  byte_offset isz nc i j = byte_offset isz nc i' j' -> i = i' /\ j = j'.
 Proof.
-  unfold byte_offset. intros Hnc Hj Hj' H.
+  unfold byte_offset. intros Hnc Hisz Hj Hj' H.
+  assert (E : i * nc + j = i' * nc + j') by nia.
   assert (i = i') by nia. subst. lia.
 Qed.
 
-(* the k-th int16 cell of the file prefix is element (k / nc, k mod nc) *)
-Lemma byte_offset_surj nc k :
-  1 <= nc -> 0 <= k -> byte_offset nc (k / nc) (k mod nc) = 2 * k /\ 0 <= k mod nc < nc.
+(* the c-th cell of the file prefix is element (c / nc, c mod nc) *)
+Lemma byte_offset_surj isz nc k :
+  1 <= nc -> 0 <= k -> byte_offset isz nc (k / nc) (k mod nc) = isz * k /\ 0 <= k mod nc < nc.
 Proof.
   intros Hnc Hk. unfold byte_offset.
-  pose proof (Z.div_mod k nc ltac:(lia)). pose proof (Z.mod_pos_bound k nc ltac:(lia)). nia.
+  pose proof (Z.div_mod k nc ltac:(lia)). pose proof (Z.mod_pos_bound k nc ltac:(lia)).
+  split; [|lia]. f_equal. lia.
 Qed.
 
 (* floor facts used by the statement of the property *)
-Lemma floor_frames nbytes nc :
-  1 <= nc -> 0 <= nbytes ->
-  let k := nbytes / (2 * nc) in
-  k * nc * 2 <= nbytes < (k + 1) * nc * 2 /\ 0 <= k.
+Lemma floor_frames isz nbytes nc :
+  1 <= nc -> 1 <= isz -> 0 <= nbytes ->
+  let k := nbytes / (isz * nc) in
+  k * nc * isz <= nbytes < (k + 1) * nc * isz /\ 0 <= k.
 Proof.
-  intros Hnc Hn k. subst k.
-  pose proof (Z.div_mod nbytes (2 * nc) ltac:(lia)).
-  pose proof (Z.mod_pos_bound nbytes (2 * nc) ltac:(lia)).
+  intros Hnc Hisz Hn k. subst k. assert (0 < isz * nc) by nia.
+  pose proof (Z.div_mod nbytes (isz * nc) ltac:(lia)).
+  pose proof (Z.mod_pos_bound nbytes (isz * nc) ltac:(lia)).
   split; [nia|]. apply Z.div_pos; lia.
 Qed.
 
-Lemma exact_frames nbytes nc ns : 1 <= nc -> nc * ns * 2 = nbytes -> ns = nbytes / (2 * nc).
+Lemma exact_frames isz nbytes nc ns : 1 <= nc -> 1 <= isz -> nc * ns * isz = nbytes -> ns = nbytes / (isz * nc).
 Proof.
-  intros Hnc H. subst nbytes. replace (nc * ns * 2) with (ns * (2 * nc)) by ring.
-  now rewrite Z.div_mul by lia.
+  intros Hnc Hisz H. subst nbytes. replace (nc * ns * isz) with (ns * (isz * nc)) by ring.
+  rewrite Z.div_mul by nia. reflexivity.
 Qed.
 
 (* ------------------------------------------------------------------ *)
@@ -271,57 +278,90 @@ Proof.
   - rewrite P1. fold F. rewrite HP. exact Hnear.
 Qed.
 
-(* OnlineReader.ns: int(st_size / 2 / nc) is the floor for st_size, nc < 2^53 *)
-Lemma ns_online_floor n nc : (0 <= n < 2 ^ 53)%Z -> (1 <= nc < 2 ^ 53)%Z ->
-  ns_online n nc = NsOk (n / (2 * nc)).
+(* item sizes of NumPy scalar dtypes *)
+Definition isz_ok (isz : Z) : Prop := (isz = 1 \/ isz = 2 \/ isz = 4 \/ isz = 8)%Z.
+
+Lemma gen_div_isz z isz : (Z.abs z < 2 ^ 53)%Z -> isz_ok isz ->
+  generic_format radix2 fexp64 (IZR z / IZR isz).
 Proof.
-  intros Hn Hnc. unfold ns_online.
+  intros H Hi.
+  assert (exists j, (0 <= j <= 3)%Z /\ IZR z / IZR isz = IZR z * bpow radix2 (- j)) as [j [Hj ->]].
+  { destruct Hi as [Hi|[Hi|[Hi|Hi]]]; subst isz.
+    - exists 0%Z. split; [lia|]. change (bpow radix2 (- 0)) with 1. unfold Rdiv. rewrite Rinv_1. reflexivity.
+    - exists 1%Z. split; [lia|]. reflexivity.
+    - exists 2%Z. split; [lia|]. reflexivity.
+    - exists 3%Z. split; [lia|]. reflexivity. }
+  apply generic_format_FLT. apply FLT_spec with (Float radix2 z (- j)); [reflexivity|exact H|simpl; lia].
+Qed.
+
+(* OnlineReader.ns: int(st_size / itemsize / nc) is the floor for st_size, itemsize * nc < 2^53 *)
+Lemma ns_online_floor isz n nc : isz_ok isz -> (0 <= n < 2 ^ 53)%Z -> (1 <= nc)%Z -> (isz * nc < 2 ^ 53)%Z ->
+  ns_online isz n nc = NsOk (n / (isz * nc)).
+Proof.
+  intros Hisz Hn Hnc Hinc. unfold ns_online.
+  assert (Hi18 : (1 <= isz <= 8)%Z) by (unfold isz_ok in Hisz; lia).
+  assert (Hnc53 : (nc < 2 ^ 53)%Z) by nia.
   destruct (of_Z_correct n) as [HnR Hnf]; [lia|].
-  destruct (of_Z_correct 2) as [H2R H2f]; [reflexivity|].
+  destruct (of_Z_correct isz) as [H2R H2f]; [lia|].
   destruct (of_Z_correct nc) as [HcR Hcf]; [lia|].
-  set (m := (n / (2 * nc))%Z).
-  assert (Hm : (m * (2 * nc) <= n /\ n + 1 <= (m + 1) * (2 * nc) /\ 0 <= m < 2 ^ 53)%Z).
-  { unfold m. pose proof (Z.div_mod n (2 * nc) ltac:(lia)).
-    pose proof (Z.mod_pos_bound n (2 * nc) ltac:(lia)).
-    assert (0 <= n / (2 * nc))%Z by (apply Z.div_pos; lia).
-    assert (n / (2 * nc) <= n)%Z by (apply Z.div_le_upper_bound; nia).
+  set (m := (n / (isz * nc))%Z).
+  assert (Hm : (m * (isz * nc) <= n /\ n + 1 <= (m + 1) * (isz * nc) /\ 0 <= m < 2 ^ 53)%Z).
+  { unfold m. assert (0 < isz * nc)%Z by nia.
+    pose proof (Z.div_mod n (isz * nc) ltac:(lia)).
+    pose proof (Z.mod_pos_bound n (isz * nc) ltac:(lia)).
+    assert (0 <= n / (isz * nc))%Z by (apply Z.div_pos; lia).
+    assert (n / (isz * nc) <= n)%Z by (apply Z.div_le_upper_bound; nia).
     nia. }
   destruct Hm as [Hm1 [Hm2 Hm3]].
-  set (N := IZR n). set (C := IZR nc). set (M := IZR m).
+  set (N := IZR n). set (C := IZR nc). set (M := IZR m). set (I := IZR isz).
   assert (HN : 0 <= N < 9007199254740992).
   { unfold N. split; [apply (IZR_le 0 n)|apply (IZR_lt n (2 ^ 53))]; lia. }
   assert (HC : 1 <= C < 9007199254740992).
   { unfold C. split; [apply (IZR_le 1 nc)|apply (IZR_lt nc (2 ^ 53))]; lia. }
+  assert (HI : 1 <= I <= 8).
+  { unfold I. split; [apply (IZR_le 1 isz)|apply (IZR_le isz 8)]; lia. }
   assert (HM : 0 <= M < 9007199254740992).
   { unfold M. split; [apply (IZR_le 0 m)|apply (IZR_lt m (2 ^ 53))]; lia. }
-  assert (HMN1 : M * (2 * C) <= N).
-  { unfold M, C, N. rewrite <- (mult_IZR 2 nc), <- mult_IZR. apply IZR_le. exact Hm1. }
-  assert (HMN2 : N + 1 <= (M + 1) * (2 * C)).
-  { unfold M, C, N. rewrite <- (mult_IZR 2 nc), <- (plus_IZR m 1), <- mult_IZR, <- (plus_IZR n 1).
+  assert (HMN1 : M * (I * C) <= N).
+  { unfold M, C, N, I. rewrite <- (mult_IZR isz nc), <- mult_IZR. apply IZR_le. exact Hm1. }
+  assert (HMN2 : N + 1 <= (M + 1) * (I * C)).
+  { unfold M, C, N, I. rewrite <- (mult_IZR isz nc), <- (plus_IZR m 1), <- mult_IZR, <- (plus_IZR n 1).
     apply IZR_le. exact Hm2. }
   (* first division: exact *)
-  destruct (fdiv_correct (of_Z n) (of_Z 2)) as [A1 A2].
-  { rewrite H2R. lra. }
-  { rewrite HnR, H2R. unfold rnd64. rewrite round_generic by (try typeclasses eauto; apply gen_half; lia).
+  destruct (fdiv_correct (of_Z n) (of_Z isz)) as [A1 A2].
+  { rewrite H2R. fold I. lra. }
+  { rewrite HnR, H2R. unfold rnd64. rewrite round_generic by (first [typeclasses eauto | apply gen_div_isz; [lia|exact Hisz]]).
     apply Rle_lt_trans with (bpow radix2 60); [|apply bpow_lt; reflexivity].
-    change (bpow radix2 60) with 1152921504606846976. fold N. rewrite Rabs_pos_eq; lra. }
+    change (bpow radix2 60) with 1152921504606846976. fold N. fold I.
+    assert (0 <= N / I <= N).
+    { unfold Rdiv. assert (0 < / I <= 1).
+      { split; [apply Rinv_0_lt_compat; lra|]. replace 1 with (/ 1) by field. apply Rinv_le_contravar; lra. }
+      nra. }
+    rewrite Rabs_pos_eq; lra. }
   rewrite HnR, H2R in A1. unfold rnd64 in A1.
-  rewrite round_generic in A1 by (try typeclasses eauto; apply gen_half; lia).
-  fold N in A1. rewrite Hnf in A2.
-  set (a := fdiv (of_Z n) (of_Z 2)) in *.
+  rewrite round_generic in A1 by (first [typeclasses eauto | apply gen_div_isz; [lia|exact Hisz]]).
+  fold N in A1. fold I in A1. rewrite Hnf in A2.
+  set (a := fdiv (of_Z n) (of_Z isz)) in *.
   (* second division *)
-  set (Ci := / C).
+  set (Ci := / C). set (Ii := / I).
   assert (HCCi : C * Ci = 1) by (unfold Ci; field; lra).
+  assert (HIIi : I * Ii = 1) by (unfold Ii; field; lra).
   assert (HCi : / 9007199254740992 <= Ci <= 1).
   { unfold Ci. split.
     - apply Rinv_le_contravar; lra.
     - replace 1 with (/ 1) by field. apply Rinv_le_contravar; lra. }
-  set (x := N / 2 / C).
-  assert (Hxe : x = N * / 2 * Ci) by reflexivity.
-  assert (Hx2C : x * (2 * C) = N).
-  { rewrite Hxe. replace (N * / 2 * Ci * (2 * C)) with (N * (C * Ci)) by field. rewrite HCCi. ring. }
+  assert (HIi : / 8 <= Ii <= 1).
+  { unfold Ii. split.
+    - apply Rinv_le_contravar; lra.
+    - replace 1 with (/ 1) by field. apply Rinv_le_contravar; lra. }
+  set (x := N / I / C).
+  assert (Hxe : x = N * Ii * Ci) by reflexivity.
+  assert (Hx2C : x * (I * C) = N).
+  { rewrite Hxe. replace (N * Ii * Ci * (I * C)) with (N * (I * Ii) * (C * Ci)) by ring.
+    rewrite HCCi, HIIi. ring. }
+  assert (HIC : 0 < I * C) by nra.
   assert (HMx : M <= x).
-  { apply Rmult_le_reg_r with (2 * C); [lra|]. rewrite Hx2C. exact HMN1. }
+  { apply Rmult_le_reg_r with (I * C); [lra|]. rewrite Hx2C. exact HMN1. }
   assert (Hlow : M <= rnd64 x).
   { unfold rnd64. apply round_ge_generic; try typeclasses eauto; [|exact HMx].
     apply gen_IZR. lia. }
@@ -333,10 +373,12 @@ Proof.
       { unfold N in *. apply (IZR_le 1 n). assert (n <> 0)%Z by (intros ->; apply HN0; reflexivity). lia. }
       pose proof small_bpow as Hsm.
       destruct (rnd64_rel x) as [e [He Hr]].
-      { rewrite Rabs_pos_eq; rewrite Hxe; nra. }
+      { assert (/ 8 * / 9007199254740992 <= Ii * Ci) by nra.
+        assert (Ii * Ci <= N * Ii * Ci) by nra.
+        rewrite Rabs_pos_eq; rewrite Hxe; lra. }
       apply Rabs_le_inv in He. unfold u64 in He.
-      rewrite Hr. apply Rmult_lt_reg_r with (2 * C); [lra|].
-      replace (x * (1 + e) * (2 * C)) with (x * (2 * C) * (1 + e)) by ring.
+      rewrite Hr. apply Rmult_lt_reg_r with (I * C); [lra|].
+      replace (x * (1 + e) * (I * C)) with (x * (I * C) * (1 + e)) by ring.
       rewrite Hx2C. apply Rlt_le_trans with (N + 1); [nra|exact HMN2]. }
   destruct (fdiv_correct a (of_Z nc)) as [B1 B2].
   { rewrite HcR. fold C. lra. }
@@ -359,57 +401,60 @@ Proof.
 Qed.
 
 (* Reader (offline, meta with fileTimeSecs): the open succeeds and exposes exactly the complete frames *)
-Lemma open_offline_floor nbytes nc t fs ns0 :
-  1 <= nc -> 1 <= nbytes -> nbytes / (2 * nc) <= 2 ^ 50 -> fs_ok fs ->
+Lemma open_offline_floor isz nbytes nc t fs ns0 :
+  1 <= nc -> 1 <= isz -> 1 <= nbytes -> nbytes / (isz * nc) <= 2 ^ 50 -> fs_ok fs ->
   ns_meta (Some t) fs = NsOk ns0 ->
-  let k := nbytes / (2 * nc) in
-  let rw := negb (nc * ns0 * 2 =? nbytes) in
-  open_bin false nbytes nc (Some t) fs =
+  let k := nbytes / (isz * nc) in
+  let rw := negb (nc * ns0 * isz =? nbytes) in
+  open_bin false isz nbytes nc (Some t) fs =
     Opened k nc (if rw then Some (rl k fs) else Some t) rw.
 Proof.
-  intros Hnc Hnb Hk Hfs Hns0 k rw.
-  destruct (floor_frames nbytes nc Hnc ltac:(lia)) as [[Hlo Hhi] Hk0]. fold k in Hlo, Hhi, Hk0.
+  intros Hnc Hisz Hnb Hk Hfs Hns0 k rw.
+  destruct (floor_frames isz nbytes nc Hnc Hisz ltac:(lia)) as [[Hlo Hhi] Hk0]. fold k in Hlo, Hhi, Hk0.
   unfold open_bin, reader_ns. rewrite Hns0. fold rw.
   destruct rw eqn:Erw.
   - unfold rl. fold k. rewrite (ns_meta_round_trip k fs ltac:(lia) Hfs).
-    replace (memmap_ok nbytes k nc) with true; [reflexivity|].
+    replace (memmap_ok isz nbytes k nc) with true; [reflexivity|].
     symmetry. apply memmap_ok_spec. nia.
   - rewrite Hns0. subst rw. apply negb_false_iff, Z.eqb_eq in Erw.
-    rewrite (exact_frames nbytes nc ns0 Hnc Erw). fold k.
-    replace (memmap_ok nbytes k nc) with true; [reflexivity|].
+    rewrite (exact_frames isz nbytes nc ns0 Hnc Hisz Erw). fold k.
+    replace (memmap_ok isz nbytes k nc) with true; [reflexivity|].
     symmetry. apply memmap_ok_spec. nia.
 Qed.
 
 (* OnlineReader: same, whatever fileTimeSecs the meta file has (or has not) *)
-Lemma open_online_floor nbytes nc fts fs :
-  1 <= nc < 2 ^ 53 -> 1 <= nbytes < 2 ^ 53 ->
-  let k := nbytes / (2 * nc) in
-  let rw := negb (nc * k * 2 =? nbytes) in
-  open_bin true nbytes nc fts fs =
+Lemma open_online_floor isz nbytes nc fts fs :
+  isz_ok isz -> 1 <= nc -> isz * nc < 2 ^ 53 -> 1 <= nbytes < 2 ^ 53 ->
+  let k := nbytes / (isz * nc) in
+  let rw := negb (nc * k * isz =? nbytes) in
+  open_bin true isz nbytes nc fts fs =
     Opened k nc (if rw then Some (rl k fs) else fts) rw.
 Proof.
-  intros Hnc Hnb k rw.
-  destruct (floor_frames nbytes nc ltac:(lia) ltac:(lia)) as [[Hlo Hhi] Hk0]. fold k in Hlo, Hhi, Hk0.
-  unfold open_bin, reader_ns. rewrite (ns_online_floor nbytes nc ltac:(lia) Hnc). fold k. fold rw.
-  replace (memmap_ok nbytes k nc) with true; [|symmetry; apply memmap_ok_spec; nia].
+  intros Hisz Hnc Hinc Hnb k rw.
+  assert (Hi1 : 1 <= isz) by (unfold isz_ok in Hisz; lia).
+  destruct (floor_frames isz nbytes nc Hnc Hi1 ltac:(lia)) as [[Hlo Hhi] Hk0]. fold k in Hlo, Hhi, Hk0.
+  unfold open_bin, reader_ns. rewrite (ns_online_floor isz nbytes nc Hisz ltac:(lia) Hnc Hinc). fold k. fold rw.
+  replace (memmap_ok isz nbytes k nc) with true; [|symmetry; apply memmap_ok_spec; nia].
   destruct rw; reflexivity.
 Qed.
 
 (* recording in progress (meta file without fileTimeSecs), file ending in a partial frame:
    OnlineReader opens with the floor frame count and writes fileTimeSecs = k / fs *)
-Lemma open_online_in_progress nbytes nc fs :
-  1 <= nc < 2 ^ 53 -> 1 <= nbytes < 2 ^ 53 -> nbytes mod (2 * nc) <> 0 ->
-  let k := nbytes / (2 * nc) in
-  open_bin true nbytes nc None fs = Opened k nc (Some (rl k fs)) true.
+Lemma open_online_in_progress isz nbytes nc fs :
+  isz_ok isz -> 1 <= nc -> isz * nc < 2 ^ 53 -> 1 <= nbytes < 2 ^ 53 -> nbytes mod (isz * nc) <> 0 ->
+  let k := nbytes / (isz * nc) in
+  open_bin true isz nbytes nc None fs = Opened k nc (Some (rl k fs)) true.
 Proof.
-  intros Hnc Hnb Hmod k. rewrite (open_online_floor nbytes nc None fs Hnc Hnb). fold k.
-  replace (nc * k * 2 =? nbytes) with false; [reflexivity|].
+  intros Hisz Hnc Hinc Hnb Hmod k. rewrite (open_online_floor isz nbytes nc None fs Hisz Hnc Hinc Hnb). fold k.
+  assert (Hi1 : 1 <= isz) by (unfold isz_ok in Hisz; lia).
+  replace (nc * k * isz =? nbytes) with false; [reflexivity|].
   symmetry. apply Z.eqb_neq. intros E. apply Hmod. subst k.
-  pose proof (Z.div_mod nbytes (2 * nc) ltac:(lia)). lia.
+  assert (0 < isz * nc) by nia.
+  pose proof (Z.div_mod nbytes (isz * nc) ltac:(lia)). nia.
 Qed.
 
 (* the offline Reader cannot evaluate Reader.ns without fileTimeSecs: TypeError, always *)
-Lemma open_offline_no_fts nbytes nc fs : open_bin false nbytes nc None fs = TypeErr.
+Lemma open_offline_no_fts isz nbytes nc fs : open_bin false isz nbytes nc None fs = TypeErr.
 Proof. reflexivity. Qed.
 
 (* compressed stream: the .ch announces chns frames *)
@@ -457,10 +502,10 @@ Proof.
     + rewrite Rmult_1_r. apply bpow_emax_big. lia.
 Qed.
 
-Lemma prefix_cells ns nc c : 1 <= nc -> 0 <= c < ns * nc ->
-  byte_offset nc (c / nc) (c mod nc) = 2 * c /\ 0 <= c / nc < ns /\ 0 <= c mod nc < nc.
+Lemma prefix_cells isz ns nc c : 1 <= nc -> 0 <= c < ns * nc ->
+  byte_offset isz nc (c / nc) (c mod nc) = isz * c /\ 0 <= c / nc < ns /\ 0 <= c mod nc < nc.
 Proof.
-  intros Hnc Hc. destruct (byte_offset_surj nc c Hnc (proj1 Hc)) as [H1 H2].
+  intros Hnc Hc. destruct (byte_offset_surj isz nc c Hnc (proj1 Hc)) as [H1 H2].
   split; [exact H1|]. split; [|exact H2]. split.
   - apply Z.div_pos; lia.
   - apply Z.div_lt_upper_bound; lia.
@@ -470,26 +515,27 @@ Qed.
 (* The reader as a stateful object                                     *)
 (* ------------------------------------------------------------------ *)
 
-Lemma open_bin_open_at online nbytes nc fts fs :
-  open_bin online nbytes nc fts fs = fst (open_at online nbytes nbytes nc fts fs).
+Lemma open_bin_open_at online isz nbytes nc fts fs :
+  open_bin online isz nbytes nc fts fs = fst (open_at online isz nbytes nbytes nc fts fs).
 Proof.
   unfold open_bin, open_at.
-  destruct (reader_ns online nbytes nc fts fs); try reflexivity.
-  destruct (reader_ns online nbytes nc _ fs); reflexivity.
+  destruct (reader_ns online isz nbytes nc fts fs); try reflexivity.
+  destruct (reader_ns online isz nbytes nc _ fs); reflexivity.
 Qed.
 
 (* OnlineReader.open whatever size the constructor cached: floor of the CURRENT size *)
-Lemma open_at_online cached cur nc fts fs :
-  1 <= nc < 2 ^ 53 -> 1 <= cur < 2 ^ 53 ->
-  let k := cur / (2 * nc) in
-  let rw := negb (nc * k * 2 =? cached) in
+Lemma open_at_online isz cached cur nc fts fs :
+  isz_ok isz -> 1 <= nc -> isz * nc < 2 ^ 53 -> 1 <= cur < 2 ^ 53 ->
+  let k := cur / (isz * nc) in
+  let rw := negb (nc * k * isz =? cached) in
   let fts' := if rw then Some (rl k fs) else fts in
-  open_at true cached cur nc fts fs = (Opened k nc fts' rw, fts').
+  open_at true isz cached cur nc fts fs = (Opened k nc fts' rw, fts').
 Proof.
-  intros Hnc Hnb k rw fts'.
-  destruct (floor_frames cur nc ltac:(lia) ltac:(lia)) as [[Hlo Hhi] Hk0]. fold k in Hlo, Hhi, Hk0.
-  unfold open_at, reader_ns. rewrite (ns_online_floor cur nc ltac:(lia) Hnc). fold k. fold rw.
-  replace (memmap_ok cur k nc) with true; [|symmetry; apply memmap_ok_spec; nia].
+  intros Hisz Hnc Hinc Hnb k rw fts'.
+  assert (Hi1 : 1 <= isz) by (unfold isz_ok in Hisz; lia).
+  destruct (floor_frames isz cur nc Hnc Hi1 ltac:(lia)) as [[Hlo Hhi] Hk0]. fold k in Hlo, Hhi, Hk0.
+  unfold open_at, reader_ns. rewrite (ns_online_floor isz cur nc Hisz ltac:(lia) Hnc Hinc). fold k. fold rw.
+  replace (memmap_ok isz cur k nc) with true; [|symmetry; apply memmap_ok_spec; nia].
   subst fts'. destruct rw; reflexivity.
 Qed.
 
@@ -497,47 +543,47 @@ Qed.
    constructor; when it disagrees with the meta claim the duration comes from a fresh stat and
    the floor of the current size is exposed; when it agrees, the claim ns0 is used as it is and
    np.memmap checks it against the current file. *)
-Lemma open_at_offline cached cur nc t fs ns0 :
-  1 <= nc -> 1 <= cur -> cur / (2 * nc) <= 2 ^ 50 -> fs_ok fs ->
+Lemma open_at_offline isz cached cur nc t fs ns0 :
+  1 <= nc -> 1 <= isz -> 1 <= cur -> cur / (isz * nc) <= 2 ^ 50 -> fs_ok fs ->
   ns_meta (Some t) fs = NsOk ns0 ->
-  let k := cur / (2 * nc) in
-  open_at false cached cur nc (Some t) fs =
-    if negb (nc * ns0 * 2 =? cached)
+  let k := cur / (isz * nc) in
+  open_at false isz cached cur nc (Some t) fs =
+    if negb (nc * ns0 * isz =? cached)
     then (Opened k nc (Some (rl k fs)) true, Some (rl k fs))
-    else (if memmap_ok cur ns0 nc then Opened ns0 nc (Some t) false else MmapError, Some t).
+    else (if memmap_ok isz cur ns0 nc then Opened ns0 nc (Some t) false else MmapError, Some t).
 Proof.
-  intros Hnc Hnb Hk Hfs Hns0 k.
-  destruct (floor_frames cur nc Hnc ltac:(lia)) as [[Hlo Hhi] Hk0]. fold k in Hlo, Hhi, Hk0.
+  intros Hnc Hisz Hnb Hk Hfs Hns0 k.
+  destruct (floor_frames isz cur nc Hnc Hisz ltac:(lia)) as [[Hlo Hhi] Hk0]. fold k in Hlo, Hhi, Hk0.
   unfold open_at, reader_ns. rewrite Hns0.
-  destruct (negb (nc * ns0 * 2 =? cached)) eqn:Erw.
+  destruct (negb (nc * ns0 * isz =? cached)) eqn:Erw.
   - unfold rl. fold k. rewrite (ns_meta_round_trip k fs ltac:(lia) Hfs).
-    replace (memmap_ok cur k nc) with true; [reflexivity|].
+    replace (memmap_ok isz cur k nc) with true; [reflexivity|].
     symmetry. apply memmap_ok_spec. nia.
   - rewrite Hns0. reflexivity.
 Qed.
 
 (* consequences of the cached comparison for the offline Reader, as concrete laws *)
-Lemma open_at_offline_stale_grow cached cur nc t fs ns0 :
-  1 <= nc -> 0 <= ns0 -> ns_meta (Some t) fs = NsOk ns0 ->
-  nc * ns0 * 2 = cached -> 1 <= cached <= cur ->
-  open_at false cached cur nc (Some t) fs = (Opened ns0 nc (Some t) false, Some t).
+Lemma open_at_offline_stale_grow isz cached cur nc t fs ns0 :
+  1 <= nc -> 1 <= isz -> 0 <= ns0 -> ns_meta (Some t) fs = NsOk ns0 ->
+  nc * ns0 * isz = cached -> 1 <= cached <= cur ->
+  open_at false isz cached cur nc (Some t) fs = (Opened ns0 nc (Some t) false, Some t).
 Proof.
-  intros Hnc Hns Hns0 Hc Hcur. unfold open_at, reader_ns. rewrite Hns0.
-  replace (nc * ns0 * 2 =? cached) with true by (symmetry; apply Z.eqb_eq; exact Hc).
+  intros Hnc Hisz Hns Hns0 Hc Hcur. unfold open_at, reader_ns. rewrite Hns0.
+  replace (nc * ns0 * isz =? cached) with true by (symmetry; apply Z.eqb_eq; exact Hc).
   cbn [negb]. rewrite Hns0.
-  replace (memmap_ok cur ns0 nc) with true; [reflexivity|].
+  replace (memmap_ok isz cur ns0 nc) with true; [reflexivity|].
   symmetry. apply memmap_ok_spec. nia.
 Qed.
 
-Lemma open_at_offline_stale_cut cached cur nc t fs ns0 :
+Lemma open_at_offline_stale_cut isz cached cur nc t fs ns0 :
   1 <= nc -> ns_meta (Some t) fs = NsOk ns0 ->
-  nc * ns0 * 2 = cached -> cur < cached ->
-  open_at false cached cur nc (Some t) fs = (MmapError, Some t).
+  nc * ns0 * isz = cached -> cur < cached ->
+  open_at false isz cached cur nc (Some t) fs = (MmapError, Some t).
 Proof.
   intros Hnc Hns0 Hc Hcur. unfold open_at, reader_ns. rewrite Hns0.
-  replace (nc * ns0 * 2 =? cached) with true by (symmetry; apply Z.eqb_eq; exact Hc).
+  replace (nc * ns0 * isz =? cached) with true by (symmetry; apply Z.eqb_eq; exact Hc).
   cbn [negb]. rewrite Hns0.
-  replace (memmap_ok cur ns0 nc) with false; [reflexivity|].
+  replace (memmap_ok isz cur ns0 nc) with false; [reflexivity|].
   symmetry. apply not_true_iff_false. rewrite memmap_ok_spec. nia.
 Qed.
 
@@ -546,71 +592,79 @@ Definition op_ok (o : op) : Prop :=
   match o with OpResize n => 1 <= n < 2 ^ 53 | _ => True end.
 
 (* what must hold of every snapshot of the history of an OnlineReader *)
-Definition online_snap_ok (nc : Z) (s : (Z * reader) * option outcome) : Prop :=
+Definition online_snap_ok (isz nc : Z) (s : (Z * reader) * option outcome) : Prop :=
   let '((cur, r), out) := s in
-  let k := cur / (2 * nc) in
+  let k := cur / (isz * nc) in
   live_ns cur r = NsOk k /\
   (forall o, out = Some o ->
      r_mapped r = Some k /\ exists fts' rw, o = Opened k nc fts' rw /\ r_fts r = fts').
 
-Definition online_inv (nc : Z) (w : Z * reader) : Prop :=
-  r_online (snd w) = true /\ r_nc (snd w) = nc /\ 1 <= fst w < 2 ^ 53.
+Definition online_inv (isz nc : Z) (w : Z * reader) : Prop :=
+  r_online (snd w) = true /\ r_isz (snd w) = isz /\ r_nc (snd w) = nc /\ 1 <= fst w < 2 ^ 53.
 
-Lemma live_ns_online nc cur r : 1 <= nc < 2 ^ 53 -> online_inv nc (cur, r) ->
-  live_ns cur r = NsOk (cur / (2 * nc)).
+Section OnlineHistory.
+Variables isz nc : Z.
+Hypothesis Hisz : isz_ok isz.
+Hypothesis Hnc : 1 <= nc.
+Hypothesis Hinc : isz * nc < 2 ^ 53.
+Set Default Proof Using "Hisz Hnc Hinc".
+
+Lemma live_ns_online cur r : online_inv isz nc (cur, r) ->
+  live_ns cur r = NsOk (cur / (isz * nc)).
 Proof.
-  intros Hnc [Ho [Hn Hc]]. cbn [fst snd] in *. unfold live_ns, reader_ns. rewrite Ho, Hn.
-  apply ns_online_floor; lia.
+  intros [Ho [Hi [Hn Hc]]]. cbn [fst snd] in *. unfold live_ns, reader_ns. rewrite Ho, Hi, Hn.
+  apply ns_online_floor; auto; lia.
 Qed.
 
-Lemma do_open_online nc cur r : 1 <= nc < 2 ^ 53 -> online_inv nc (cur, r) ->
+Lemma do_open_online cur r : online_inv isz nc (cur, r) ->
   let '(r', out) := do_open cur r in
-  online_inv nc (cur, r') /\ online_snap_ok nc ((cur, r'), Some out).
+  online_inv isz nc (cur, r') /\ online_snap_ok isz nc ((cur, r'), Some out).
 Proof.
-  intros Hnc [Ho [Hn Hc]]. cbn [fst snd] in *. unfold do_open.
-  rewrite Ho, Hn. rewrite (open_at_online (r_cached r) cur nc (r_fts r) (r_fs r) Hnc Hc).
+  intros [Ho [Hi [Hn Hc]]]. cbn [fst snd] in *. unfold do_open.
+  rewrite Ho, Hi, Hn. rewrite (open_at_online isz (r_cached r) cur nc (r_fts r) (r_fs r) Hisz Hnc Hinc Hc).
   split.
   - repeat split; cbn; auto; lia.
   - unfold online_snap_ok. split.
-    + apply live_ns_online; [exact Hnc|]. repeat split; cbn; auto; lia.
+    + apply live_ns_online. repeat split; cbn; auto; lia.
     + intros o Eo. injection Eo as <-. cbn. split; [reflexivity|]. eauto.
 Qed.
 
-Lemma step_online nc w o : 1 <= nc < 2 ^ 53 -> online_inv nc w -> op_ok o ->
-  online_inv nc (fst (step w o)) /\ online_snap_ok nc (step w o).
+Lemma step_online w o : online_inv isz nc w -> op_ok o ->
+  online_inv isz nc (fst (step w o)) /\ online_snap_ok isz nc (step w o).
 Proof.
-  intros Hnc Hinv Hop. destruct w as [cur r]. destruct o as [n| |]; cbn [step].
-  - assert (Hinv' : online_inv nc (n, r)).
-    { destruct Hinv as [Ho [Hn _]]. repeat split; cbn in *; auto; lia. }
+  intros Hinv Hop. destruct w as [cur r]. destruct o as [n| |]; cbn [step].
+  - assert (Hinv' : online_inv isz nc (n, r)).
+    { destruct Hinv as [Ho [Hi [Hn _]]]. repeat split; cbn in *; auto; lia. }
     split; [exact Hinv'|]. split; [apply live_ns_online; assumption|]. intros o E. discriminate.
-  - pose proof (do_open_online nc cur r Hnc Hinv) as H. destruct (do_open cur r) as [r' out]. exact H.
+  - pose proof (do_open_online cur r Hinv) as H. destruct (do_open cur r) as [r' out]. exact H.
   - destruct (r_mapped r) eqn:Em.
     + split; [exact Hinv|]. split; [apply live_ns_online; assumption|]. intros o E. discriminate.
-    + pose proof (do_open_online nc cur r Hnc Hinv) as H. destruct (do_open cur r) as [r' out]. exact H.
+    + pose proof (do_open_online cur r Hinv) as H. destruct (do_open cur r) as [r' out]. exact H.
 Qed.
 
-Lemma exec_online nc ops : 1 <= nc < 2 ^ 53 -> forall w, online_inv nc w -> Forall op_ok ops ->
-  Forall (online_snap_ok nc) (exec w ops).
+Lemma exec_online ops : forall w, online_inv isz nc w -> Forall op_ok ops ->
+  Forall (online_snap_ok isz nc) (exec w ops).
 Proof.
-  intros Hnc. induction ops as [|o tl IH]; intros w Hinv Hops; cbn [exec]; [constructor|].
+  induction ops as [|o tl IH]; intros w Hinv Hops; cbn [exec]; [constructor|].
   inversion Hops as [|? ? Ho Htl]; subst.
-  pose proof (step_online nc w o Hnc Hinv Ho) as [Hinv' Hsnap].
+  pose proof (step_online w o Hinv Ho) as [Hinv' Hsnap].
   destruct (step w o) as [w' out]. constructor; [exact Hsnap|]. apply IH; assumption.
 Qed.
 
 (* every history of appends / cuts / opens / re-opens / context-manager entries on an OnlineReader *)
-Lemma history_online nc fs fts cur0 do_op ops :
-  1 <= nc < 2 ^ 53 -> 1 <= cur0 < 2 ^ 53 -> Forall op_ok ops ->
-  Forall (online_snap_ok nc) (history true nc fs fts cur0 do_op ops).
+Lemma history_online fs fts cur0 do_op ops :
+  1 <= cur0 < 2 ^ 53 -> Forall op_ok ops ->
+  Forall (online_snap_ok isz nc) (history true isz nc fs fts cur0 do_op ops).
 Proof.
-  intros Hnc Hc Hops. unfold history, construct.
-  set (r0 := mkReader true nc fs cur0 fts None).
-  assert (Hinv0 : online_inv nc (cur0, r0)) by (repeat split; cbn; auto; lia).
+  intros Hc Hops. unfold history, construct.
+  set (r0 := mkReader true isz nc fs cur0 fts None).
+  assert (Hinv0 : online_inv isz nc (cur0, r0)) by (repeat split; cbn; auto; lia).
   destruct do_op.
-  - pose proof (step_online nc (cur0, r0) OpOpen Hnc Hinv0 I) as [Hinv' Hsnap].
+  - pose proof (step_online (cur0, r0) OpOpen Hinv0 I) as [Hinv' Hsnap].
     destruct (step (cur0, r0) OpOpen) as [w' out]. constructor; [exact Hsnap|].
     apply exec_online; assumption.
   - constructor.
     + split; [apply live_ns_online; assumption|]. intros o E. discriminate.
     + apply exec_online; assumption.
 Qed.
+End OnlineHistory.
